@@ -264,4 +264,30 @@ theorem k4_of {tr : Trace} {endT : Int} (h : K4 Cfg.paper tr endT = true) {e : D
   obtain ⟨sd, hsd, ⟨⟨⟨⟨h5, h6⟩, h7⟩, h8⟩, h9⟩⟩ := h3
   exact ⟨sd, hsd, h5, h6, h7, h8, h9⟩
 
+/-! ### the lookup from `Added` -/
+
+theorem mem_addeds {tr : Trace} {t : Int} {b : Br} {s : Svc} : (t, b, s) ∈ addeds tr ↔ (⟨t, .added b s⟩ : TEv) ∈ tr := by
+  unfold addeds
+  rw [List.mem_filterMap]
+  constructor
+  · rintro ⟨⟨t', e⟩, he, h⟩
+    cases e <;> simp at h
+    obtain ⟨rfl, rfl, rfl⟩ := h
+    exact he
+  · intro h
+    exact ⟨_, h, rfl⟩
+
+/-- when Added(`b`, `s`) fires, the host has already processed a datagram that carries PTR(`s`) *with* SRV, TXT and address -/
+theorem added_complete {tr : Trace} {endT : Int} (h7 : K7 Cfg.paper tr endT = true) (h6 : K6full tr = true)
+    (h5 : K5added tr = true) {t : Int} {b : Br} {s : Svc} (ha : (⟨t, .added b s⟩ : TEv) ∈ tr) :
+    ∃ e ∈ dlvs tr, e.h = b.host ∧ e.t ≤ t ∧ posFull s e.items = true := by
+  have h := List.all_eq_true.mp h5 (t, b, s) (mem_addeds.mpr ha)
+  simp only [List.any_eq_true, Bool.and_eq_true, beq_iff_eq, decide_eq_true_eq] at h
+  obtain ⟨e, he, ⟨heh, het⟩, hp⟩ := h
+  obtain ⟨_, sd, hsd, _, _, hitems, _, _, _, _⟩ := k7a_of h7 he
+  have hps : pos s sd.items = true := by rw [hitems]; exact hp
+  have h' := List.all_eq_true.mp (List.all_eq_true.mp h6 sd hsd) s (pos_mem hps)
+  simp only [hps, Bool.not_true, Bool.false_or] at h'
+  exact ⟨e, he, heh, het, by rw [← hitems]; exact h'⟩
+
 end Zc.Link
